@@ -38,9 +38,17 @@ def _drive(binp, args, timeout=3000):
         raise vlib.Infra("driver %s printed no summary:\n%s" % (args[:2], p.stdout[-2000:]))
 
 
+def _validate(module, tp, name, heap):
+    """vlib.validate_trace; one retry if the scratch directory vanished under TLC (out/ is shared with other runs)"""
+    try:
+        return vlib.validate_trace(module, tp, name, heap=heap, timeout=3000)
+    except OSError:
+        return vlib.validate_trace(module, tp, name + "-retry", heap=heap, timeout=3000)
+
+
 def _validate_many(module, files, par, heap):
     def val(tp):
-        return tp, vlib.validate_trace(module, tp, os.path.basename(tp).replace(".", "-"), heap=heap, timeout=3000)
+        return tp, _validate(module, tp, os.path.basename(tp).replace(".", "-"), heap)
     with ThreadPoolExecutor(max_workers=par) as ex:
         return list(ex.map(val, files))
 
@@ -66,12 +74,13 @@ def _attach_events(results):
 
 # ---------------------------------------------------------------------------------------------------------------
 def part_scripted(ctx, binp, wd):
+    t0 = time.time()
     quick = ctx.tier == "quick"
     ms = 3 if quick else 4
     subst = {r"MaxScript = \d+": "MaxScript = %d" % ms}
     if quick:
         subst[r"Steps <- MC_Steps"] = "Steps <- MC_StepsQuick"
-    scen, mc = _tlc_beh("ParserMC", os.path.join(wd, "mc"), subst)
+    scen, mc = _tlc_beh("ParserMC", os.path.join(wd, "mc"), subst, workers=4 if quick else 8)
     log("[C05] Parser.tla exhaustive (scripts <= %d over %d step codes, 16 container sets): %d distinct states, %d (script, S) pairs in %.1fs"
         % (ms, 9 if quick else 13, mc.distinct, len(scen), mc.wall))
     exported = len(scen)
@@ -101,11 +110,13 @@ def part_scripted(ctx, binp, wd):
     bad, cnt, lines, states = _attach_events(res)
     with open(files[0]) as f:
         samples = [json.loads(next(f)) for _ in range(2)]
+    log("[C05] part 1 done in %.1fs (TLC %.1fs)" % (time.time() - t0, mc.wall))
     return {"mc": mc, "pairs_exported": exported, "replayed": total, "bad": bad, "cnt": cnt,
             "lines": lines, "tstates": states, "samples": samples, "files": files, "max_script": ms}
 
 
 def part_real(ctx, binp, wd):
+    t0 = time.time()
     quick = ctx.tier == "quick"
     nproc = 3 if quick else 12
     per = 800 if quick else 10000
@@ -140,12 +151,14 @@ def part_real(ctx, binp, wd):
                     nontrivial.add((e["in"], tuple(e["s"])))
                 if len(samples) < 1 and k >= 3:
                     samples.append(e)
+    log("[C05] part 2 done in %.1fs" % (time.time() - t0))
     return {"cases": sum(s["scenarios"] for s in sts), "events": lines, "bad": bad, "cnt": cnt, "tstates": states,
             "first_layer": firsts, "parser_outcomes": errs, "events_with_2plus_decoded": deep, "subsets_used": len(subsets),
             "distinct_nontrivial": len(nontrivial), "samples": samples, "files": files}
 
 
 def part_stale(ctx, binp, wd):
+    t0 = time.time()
     quick = ctx.tier == "quick"
     N, M, rounds = (14, 6, 2) if quick else (30, 12, 8)
     seqs, g = _tlc_beh("ParserSeqGen", os.path.join(wd, "seqgen"), {r"N = \d+": "N = %d" % N, r"M = \d+": "M = %d" % M}, workers=4)
@@ -180,6 +193,7 @@ def part_stale(ctx, binp, wd):
     samples = [json.loads(l) for l in lines0 if '"op":"reuse"' in l][:1]
     for s in samples:
         s["val"].pop("df", None)
+    log("[C05] part 3 done in %.1fs" % (time.time() - t0))
     return {"gen": g, "N": N, "M": M, "rounds": rounds, "sequences": len(seqs), "replayed": sum(s["scenarios"] for s in sts),
             "events": lines, "bad": bad, "cnt": cnt, "tstates": states, "samples": samples, "files": files}
 
@@ -188,10 +202,11 @@ def part_stale(ctx, binp, wd):
 # binding self-tests: a recorded good trace with one corrupted field must be rejected (and the same prefix
 # uncorrupted must not be), and a harness-side mutant must be caught.
 
-def _corrupt_all(lines, corruptions):
-    """apply every (pick, mutate, reasons) to a different line; returns (new lines, [line numbers])"""
+def _corrupt_all(lines, corruptions, each=3):
+    """apply every (pick, mutate, reasons) to up to `each` different lines; returns (new lines, [line numbers])"""
     out, used = list(lines), []
     for pick, mutate, _ in corruptions:
+        n = 0
         for i, l in enumerate(out):
             if (i + 1) in used:
                 continue
@@ -200,8 +215,10 @@ def _corrupt_all(lines, corruptions):
                 mutate(e)
                 out[i] = json.dumps(e) + "\n"
                 used.append(i + 1)
-                break
-        else:
+                n += 1
+                if n == each:
+                    break
+        if n == 0:
             return None, used
     return out, used
 
@@ -255,16 +272,16 @@ def selftest(ctx, binp, wd, files, main_cnt):
         if any(cnt.get(r, 0) for r in reasons):        # the tree under test has genuine rejections of that kind: measure the baseline
             a = os.path.join(wd, "st-%s-clean.ndjson" % name)
             open(a, "w").writelines(lines)
-            va = vlib.validate_trace(module, a, "st-a-" + name, heap="2g")
+            va = _validate(module, a, "st-a-" + name, "2g")
             base = sum(va["cnt"].get(r, 0) for r in reasons)
         b = os.path.join(wd, "st-%s-bad.ndjson" % name)
         open(b, "w").writelines(cor)
-        vb = vlib.validate_trace(module, b, "st-b-" + name, heap="2g")
+        vb = _validate(module, b, "st-b-" + name, "2g")
         got = sum(vb["cnt"].get(r, 0) for r in reasons) - base
-        return name, got >= len(cors), "%d corrupted events (lines %s) -> %d more rejections (%s)" % (len(cors), used, got, "/".join(reasons))
+        return name, got >= len(cors), "%d kinds of corruption on %d events (lines %s) -> %d more rejections (%s)" % (len(cors), len(used), used, got, "/".join(reasons))
 
     def runstale(_):
-        v = vlib.validate_trace("ParserSeqTrace", sp, "st-stale", heap="2g")
+        v = _validate("ParserSeqTrace", sp, "st-stale", "2g")
         ok = v["cnt"].get("stale-state", 0) == 1 and [b["line"] for b in v["bad"]] == [len(sl)]
         return "stale", ok, "reuse twin of a fresh event accepted, twin with one changed digest rejected at line %d: %s" % (len(sl), v["cnt"])
 
@@ -274,7 +291,7 @@ def selftest(ctx, binp, wd, files, main_cnt):
             open(msp, "w").writelines(stride(files["scen"], 600))
         tp = os.path.join(wd, "st-mut%d.ndjson" % m[0])
         _drive(binp, ["-mode", "script", "-scenarios", msp, "-mutant", str(m[0]), "-trace", tp])
-        v = vlib.validate_trace("ParserTrace", tp, "st-mut%d" % m[0], heap="2g")
+        v = _validate("ParserTrace", tp, "st-mut%d" % m[0], "2g")
         got = sum(v["cnt"].get(r, 0) for r in m[1])
         return "mutant%d" % m[0], got >= 1, "harness-side mutant (%s): %d rejections" % (m[2], got)
 
@@ -287,10 +304,7 @@ def selftest(ctx, binp, wd, files, main_cnt):
         f2 = [ex.submit(runstale, 0)]
         f3 = [ex.submit(runmut, m) for m in muts]
         out = [f.result() for f in f1 + f2 + f3]
-    failed = [o for o in out if not o[1]]
-    if failed:
-        raise vlib.Infra("binding self-test failed (a corrupted trace / a mutant double was accepted): %s" % failed)
-    return [{"test": n, "detail": d} for n, _, d in out]
+    return [{"test": n, "ok": ok, "detail": d} for n, ok, d in out]
 
 
 # ---------------------------------------------------------------------------------------------------------------
@@ -344,11 +358,18 @@ def run(ctx):
                      {"event": _trim(e2, 4000), "inputs_hex": b.get("hex"), "first": b.get("first"),
                       "explain": "cmd/parser -mode explain -first <first> <hex>..."})
 
+    t1 = time.time()
     st = selftest(ctx, binp, wd, {"scr": S["files"][0], "real": R["files"][0], "stale": T["files"][0], "scen": os.path.join(wd, "scr-0.scen")},
                   {"scr": S["cnt"], "real": R["cnt"]})
-    log("[C05] binding self-tests passed: %s" % ", ".join(x["test"] for x in st))
-
+    log("[C05] self-tests took %.1fs" % (time.time() - t1))
     rc = V.finish()
+    failed = [x for x in st if not x["ok"]]
+    if failed and rc == 0:
+        raise vlib.Infra("binding self-test failed (a corrupted trace / a mutant double was accepted): %s" % failed)
+    if failed:     # corrupting events that the tree under test already breaks proves nothing either way
+        log("[C05] binding self-tests inconclusive on this tree: %s" % ", ".join(x["test"] for x in failed))
+    else:
+        log("[C05] binding self-tests passed: %s" % ", ".join(x["test"] for x in st))
     mc, g = S["mc"], T["gen"]
     cov = {"states": mc.distinct + g.distinct + S["tstates"] + R["tstates"] + T["tstates"],
            "transitions": mc.generated + g.generated,
